@@ -246,6 +246,8 @@ fn cmp_text(want: &[u8], got: &[u8]) -> Result<(), Fail> {
     }
     let what = if got.len() < want.len() && want.starts_with(got) {
         "header-truncated"
+    } else if got.len() > want.len() && got.starts_with(want) && got[want.len()..].iter().all(|&b| b == 0) {
+        "nul-padding-delivered-as-header-text"
     } else if got.len() > want.len() && got.starts_with(want) {
         "bytes-beyond-header"
     } else {
@@ -372,6 +374,7 @@ pub fn check_bam(doc: &GHeader, layout: BamText, recs: &[GRec], container: Conta
         let own_header = write_bam(&header, &[], Container::Raw).map_err(|e| harness(e.err.to_string()))?;
         stream.extend_from_slice(&own[own_header.len()..]);
     }
+    let cap = stream.len() * 2 + 1000;
     let file = match container {
         Container::Raw => stream,
         Container::Bgzf => {
@@ -381,7 +384,6 @@ pub fn check_bam(doc: &GHeader, layout: BamText, recs: &[GRec], container: Conta
             w.finish().map_err(|e| harness(e.to_string()))?
         }
     };
-    let cap = file.len() * 2 + 1000;
     let want_recs: Vec<GRec> = recs.iter().map(norm_bam).collect();
     fn go<R: Read>(mut reader: bam::io::Reader<R>, mode: &Mode, cap: usize, text: &[u8], refs: &[(Vec<u8>, u64)], want_recs: &[GRec]) -> Result<(), Fail> {
         let err = |e: io::Error| Fail { what: "error", expected: "Ok".into(), observed: e.to_string() };
